@@ -39,7 +39,7 @@ pub fn c01_flow_reject(s: Shape) {
         iv[r] = i;
         bl[r] = l;
         rules.push(Arc::new(flow::Rule {
-            id: format!("r{}", r),
+            id: crate::util::name("r", r as usize),
             resource: res.clone(),
             threshold: thr2[r] as f64 / 2.0,
             stat_interval_ms: stat_ms,
@@ -80,13 +80,9 @@ pub fn c01_flow_reject(s: Shape) {
             let mut inwin = 0u64;
             for j in 0..nadm {
                 let b = adm_t[j] - adm_t[j] % bl[r];
-                if b + iv[r] > cur && b <= cur {
-                    inwin += adm_n[j];
-                }
+                inwin += vrt::ite_u64((b + iv[r] > cur) & (b <= cur), adm_n[j], 0);
             }
-            if 2 * (inwin + n) > thr2[r] {
-                fits = false;
-            }
+            fits = fits & !(2 * (inwin + n) > thr2[r]);
         }
         let got = EntryBuilder::new(res.clone())
             .with_traffic_type(TrafficType::Inbound)
